@@ -10,7 +10,7 @@ open Drpc.Signal (Ch Tid chClosed)
     (s.setPc t p).pc u = if u = t then p else s.pc u := rfl
 
 attribute [grind] holds ranF pastStore postDo retDo closer sender getOf waitsOn isPanic closedBy closeDone
-  inF isDStore closeFirst closeSecond afterDo chClosed upd Op.isClose Op.isSend
+  inF isDStore closeFirst closeSecond freshFirst isFreshCh afterDo chClosed upd Op.isClose Op.isSend
 
 structure Inv (s : State) : Prop where
   mutex1 : ∀ t, holds (s.pc t) = true → s.mu = some t
@@ -26,9 +26,10 @@ structure Inv (s : State) : Prop where
   clF : ∀ t, closeFirst (s.pc t) = true → s.ch = .sentinel
   cd : ∀ t, closeSecond (s.pc t) = true → chClosed s.closes s.ch = true
   cl2 : ∀ c, 0 < s.closes c → s.done = true ∧ s.ch = .fresh c
+  frF : ∀ t, freshFirst (s.pc t) = true → isFreshCh s.ch = true
 
 theorem inv_init : Inv init := by
-  constructor <;> simp [init, holds, ranF, pastStore, postDo, getOf, waitsOn, inF, isDStore, closeFirst, closeSecond]
+  constructor <;> simp [init, holds, ranF, pastStore, postDo, getOf, waitsOn, inF, isDStore, closeFirst, closeSecond, freshFirst]
 
 theorem ranF_cases (p : PC) : ranF p = true → (holds p = true ∧ inF p = true) ∨ pastStore p = true := by
   cases p <;> simp [ranF, holds, pastStore, inF]
@@ -40,6 +41,8 @@ theorem isDStore_inF (p : PC) : isDStore p = true → inF p = true := by
   cases p <;> simp [isDStore, inF]
 theorem closeFirst_ranF (p : PC) : closeFirst p = true → ranF p = true := by
   cases p <;> simp [closeFirst, ranF] <;> (intros; simp_all)
+theorem freshFirst_ranF (p : PC) : freshFirst p = true → ranF p = true := by
+  cases p <;> simp [freshFirst, ranF] <;> (intros; simp_all)
 theorem closeSecond_postDo (p : PC) : closeSecond p = true → postDo p = true := by
   cases p <;> simp [closeSecond, postDo]
 theorem getOf_postDo (p : PC) (c : Ch) : getOf p = some c → postDo p = true := by
@@ -49,7 +52,7 @@ theorem waitsOn_postDo (p : PC) (c : Ch) : waitsOn p = some c → postDo p = tru
 
 macro "chan_inv_case" : tactic => `(tactic| (
   constructor <;> (intros; (try simp only [State.setPc, State.isClosed, runF] at *) <;>
-    first | done | grind [ranF_cases, inF_holds, pastStore_ranF, isDStore_inF, closeFirst_ranF, closeSecond_postDo,
+    first | done | grind [ranF_cases, inF_holds, pastStore_ranF, isDStore_inF, closeFirst_ranF, freshFirst_ranF, closeSecond_postDo,
       getOf_postDo, waitsOn_postDo])))
 
 macro "chan_step_tac" : tactic => `(tactic| (
@@ -66,7 +69,7 @@ theorem inv_call (s : State) (t : Tid) (op : Op) (h : Inv s) (hi : s.pc t = .idl
     Inv (s.setPc t (.start op)) := by
   have a1 := h.mutex2 t
   simp only [hi] at a1
-  obtain ⟨h1, h2, h3, h4, h5, h6, h7, h8, h9, h10, h11, h12, h13⟩ := h
+  obtain ⟨h1, h2, h3, h4, h5, h6, h7, h8, h9, h10, h11, h12, h13, h14⟩ := h
   chan_inv_case
 
 set_option maxHeartbeats 2000000 in
@@ -83,8 +86,9 @@ theorem step_start (s : State) (t : Tid) (op : _) (h : Inv s) (hp : s.pc t = .st
   have a_wt := h.wt t
   have a_clF := h.clF t
   have a_cd := h.cd t
-  simp only [hp] at a_mutex1 a_mutex2 a_uniq a_past a_pre a_pd a_st a_gt a_wt a_clF a_cd
-  obtain ⟨h1, h2, h3, h4, h5, h6, h7, h8, h9, h10, h11, h12, h13⟩ := h
+  have a_frF := h.frF t
+  simp only [hp] at a_mutex1 a_mutex2 a_uniq a_past a_pre a_pd a_st a_gt a_wt a_clF a_cd a_frF
+  obtain ⟨h1, h2, h3, h4, h5, h6, h7, h8, h9, h10, h11, h12, h13, h14⟩ := h
   cases op <;> chan_step_tac
 
 theorem step_dLock (s : State) (t : Tid) (op : _) (h : Inv s) (hp : s.pc t = .dLock op) :
@@ -100,8 +104,9 @@ theorem step_dLock (s : State) (t : Tid) (op : _) (h : Inv s) (hp : s.pc t = .dL
   have a_wt := h.wt t
   have a_clF := h.clF t
   have a_cd := h.cd t
-  simp only [hp] at a_mutex1 a_mutex2 a_uniq a_past a_pre a_pd a_st a_gt a_wt a_clF a_cd
-  obtain ⟨h1, h2, h3, h4, h5, h6, h7, h8, h9, h10, h11, h12, h13⟩ := h
+  have a_frF := h.frF t
+  simp only [hp] at a_mutex1 a_mutex2 a_uniq a_past a_pre a_pd a_st a_gt a_wt a_clF a_cd a_frF
+  obtain ⟨h1, h2, h3, h4, h5, h6, h7, h8, h9, h10, h11, h12, h13, h14⟩ := h
   chan_step_tac
 
 theorem step_dRead (s : State) (t : Tid) (op : _) (h : Inv s) (hp : s.pc t = .dRead op) :
@@ -117,8 +122,9 @@ theorem step_dRead (s : State) (t : Tid) (op : _) (h : Inv s) (hp : s.pc t = .dR
   have a_wt := h.wt t
   have a_clF := h.clF t
   have a_cd := h.cd t
-  simp only [hp] at a_mutex1 a_mutex2 a_uniq a_past a_pre a_pd a_st a_gt a_wt a_clF a_cd
-  obtain ⟨h1, h2, h3, h4, h5, h6, h7, h8, h9, h10, h11, h12, h13⟩ := h
+  have a_frF := h.frF t
+  simp only [hp] at a_mutex1 a_mutex2 a_uniq a_past a_pre a_pd a_st a_gt a_wt a_clF a_cd a_frF
+  obtain ⟨h1, h2, h3, h4, h5, h6, h7, h8, h9, h10, h11, h12, h13, h14⟩ := h
   chan_step_tac
 
 set_option maxHeartbeats 2000000 in
@@ -135,8 +141,9 @@ theorem step_dF (s : State) (t : Tid) (op : _) (h : Inv s) (hp : s.pc t = .dF op
   have a_wt := h.wt t
   have a_clF := h.clF t
   have a_cd := h.cd t
-  simp only [hp] at a_mutex1 a_mutex2 a_uniq a_past a_pre a_pd a_st a_gt a_wt a_clF a_cd
-  obtain ⟨h1, h2, h3, h4, h5, h6, h7, h8, h9, h10, h11, h12, h13⟩ := h
+  have a_frF := h.frF t
+  simp only [hp] at a_mutex1 a_mutex2 a_uniq a_past a_pre a_pd a_st a_gt a_wt a_clF a_cd a_frF
+  obtain ⟨h1, h2, h3, h4, h5, h6, h7, h8, h9, h10, h11, h12, h13, h14⟩ := h
   cases op <;> chan_step_tac
 
 theorem step_dStore (s : State) (t : Tid) (op : _) (h : Inv s) (hp : s.pc t = .dStore op) :
@@ -152,8 +159,9 @@ theorem step_dStore (s : State) (t : Tid) (op : _) (h : Inv s) (hp : s.pc t = .d
   have a_wt := h.wt t
   have a_clF := h.clF t
   have a_cd := h.cd t
-  simp only [hp] at a_mutex1 a_mutex2 a_uniq a_past a_pre a_pd a_st a_gt a_wt a_clF a_cd
-  obtain ⟨h1, h2, h3, h4, h5, h6, h7, h8, h9, h10, h11, h12, h13⟩ := h
+  have a_frF := h.frF t
+  simp only [hp] at a_mutex1 a_mutex2 a_uniq a_past a_pre a_pd a_st a_gt a_wt a_clF a_cd a_frF
+  obtain ⟨h1, h2, h3, h4, h5, h6, h7, h8, h9, h10, h11, h12, h13, h14⟩ := h
   chan_step_tac
 
 set_option maxHeartbeats 2000000 in
@@ -170,8 +178,9 @@ theorem step_dUnlock (s : State) (t : Tid) (op : _) (first : _) (h : Inv s) (hp 
   have a_wt := h.wt t
   have a_clF := h.clF t
   have a_cd := h.cd t
-  simp only [hp] at a_mutex1 a_mutex2 a_uniq a_past a_pre a_pd a_st a_gt a_wt a_clF a_cd
-  obtain ⟨h1, h2, h3, h4, h5, h6, h7, h8, h9, h10, h11, h12, h13⟩ := h
+  have a_frF := h.frF t
+  simp only [hp] at a_mutex1 a_mutex2 a_uniq a_past a_pre a_pd a_st a_gt a_wt a_clF a_cd a_frF
+  obtain ⟨h1, h2, h3, h4, h5, h6, h7, h8, h9, h10, h11, h12, h13, h14⟩ := h
   cases op <;> chan_step_tac
 
 theorem step_cClose (s : State) (t : Tid)  (h : Inv s) (hp : s.pc t = .cClose ) :
@@ -187,8 +196,9 @@ theorem step_cClose (s : State) (t : Tid)  (h : Inv s) (hp : s.pc t = .cClose ) 
   have a_wt := h.wt t
   have a_clF := h.clF t
   have a_cd := h.cd t
-  simp only [hp] at a_mutex1 a_mutex2 a_uniq a_past a_pre a_pd a_st a_gt a_wt a_clF a_cd
-  obtain ⟨h1, h2, h3, h4, h5, h6, h7, h8, h9, h10, h11, h12, h13⟩ := h
+  have a_frF := h.frF t
+  simp only [hp] at a_mutex1 a_mutex2 a_uniq a_past a_pre a_pd a_st a_gt a_wt a_clF a_cd a_frF
+  obtain ⟨h1, h2, h3, h4, h5, h6, h7, h8, h9, h10, h11, h12, h13, h14⟩ := h
   chan_step_tac
 
 theorem step_cGet (s : State) (t : Tid) (first : _) (h : Inv s) (hp : s.pc t = .cGet first) :
@@ -204,8 +214,9 @@ theorem step_cGet (s : State) (t : Tid) (first : _) (h : Inv s) (hp : s.pc t = .
   have a_wt := h.wt t
   have a_clF := h.clF t
   have a_cd := h.cd t
-  simp only [hp] at a_mutex1 a_mutex2 a_uniq a_past a_pre a_pd a_st a_gt a_wt a_clF a_cd
-  obtain ⟨h1, h2, h3, h4, h5, h6, h7, h8, h9, h10, h11, h12, h13⟩ := h
+  have a_frF := h.frF t
+  simp only [hp] at a_mutex1 a_mutex2 a_uniq a_past a_pre a_pd a_st a_gt a_wt a_clF a_cd a_frF
+  obtain ⟨h1, h2, h3, h4, h5, h6, h7, h8, h9, h10, h11, h12, h13, h14⟩ := h
   chan_step_tac
 
 theorem step_cSend (s : State) (t : Tid) (first : _) (h : Inv s) (hp : s.pc t = .cSend first) :
@@ -221,8 +232,9 @@ theorem step_cSend (s : State) (t : Tid) (first : _) (h : Inv s) (hp : s.pc t = 
   have a_wt := h.wt t
   have a_clF := h.clF t
   have a_cd := h.cd t
-  simp only [hp] at a_mutex1 a_mutex2 a_uniq a_past a_pre a_pd a_st a_gt a_wt a_clF a_cd
-  obtain ⟨h1, h2, h3, h4, h5, h6, h7, h8, h9, h10, h11, h12, h13⟩ := h
+  have a_frF := h.frF t
+  simp only [hp] at a_mutex1 a_mutex2 a_uniq a_past a_pre a_pd a_st a_gt a_wt a_clF a_cd a_frF
+  obtain ⟨h1, h2, h3, h4, h5, h6, h7, h8, h9, h10, h11, h12, h13, h14⟩ := h
   chan_step_tac
 
 theorem step_cRecv (s : State) (t : Tid) (first : _) (h : Inv s) (hp : s.pc t = .cRecv first) :
@@ -238,8 +250,9 @@ theorem step_cRecv (s : State) (t : Tid) (first : _) (h : Inv s) (hp : s.pc t = 
   have a_wt := h.wt t
   have a_clF := h.clF t
   have a_cd := h.cd t
-  simp only [hp] at a_mutex1 a_mutex2 a_uniq a_past a_pre a_pd a_st a_gt a_wt a_clF a_cd
-  obtain ⟨h1, h2, h3, h4, h5, h6, h7, h8, h9, h10, h11, h12, h13⟩ := h
+  have a_frF := h.frF t
+  simp only [hp] at a_mutex1 a_mutex2 a_uniq a_past a_pre a_pd a_st a_gt a_wt a_clF a_cd a_frF
+  obtain ⟨h1, h2, h3, h4, h5, h6, h7, h8, h9, h10, h11, h12, h13, h14⟩ := h
   chan_step_tac
 
 theorem step_cRecvW (s : State) (t : Tid) (first : _) (c : _) (h : Inv s) (hp : s.pc t = .cRecvW first c) :
@@ -255,8 +268,9 @@ theorem step_cRecvW (s : State) (t : Tid) (first : _) (c : _) (h : Inv s) (hp : 
   have a_wt := h.wt t
   have a_clF := h.clF t
   have a_cd := h.cd t
-  simp only [hp] at a_mutex1 a_mutex2 a_uniq a_past a_pre a_pd a_st a_gt a_wt a_clF a_cd
-  obtain ⟨h1, h2, h3, h4, h5, h6, h7, h8, h9, h10, h11, h12, h13⟩ := h
+  have a_frF := h.frF t
+  simp only [hp] at a_mutex1 a_mutex2 a_uniq a_past a_pre a_pd a_st a_gt a_wt a_clF a_cd a_frF
+  obtain ⟨h1, h2, h3, h4, h5, h6, h7, h8, h9, h10, h11, h12, h13, h14⟩ := h
   chan_step_tac
 
 theorem step_cFull (s : State) (t : Tid) (first : _) (h : Inv s) (hp : s.pc t = .cFull first) :
@@ -272,8 +286,9 @@ theorem step_cFull (s : State) (t : Tid) (first : _) (h : Inv s) (hp : s.pc t = 
   have a_wt := h.wt t
   have a_clF := h.clF t
   have a_cd := h.cd t
-  simp only [hp] at a_mutex1 a_mutex2 a_uniq a_past a_pre a_pd a_st a_gt a_wt a_clF a_cd
-  obtain ⟨h1, h2, h3, h4, h5, h6, h7, h8, h9, h10, h11, h12, h13⟩ := h
+  have a_frF := h.frF t
+  simp only [hp] at a_mutex1 a_mutex2 a_uniq a_past a_pre a_pd a_st a_gt a_wt a_clF a_cd a_frF
+  obtain ⟨h1, h2, h3, h4, h5, h6, h7, h8, h9, h10, h11, h12, h13, h14⟩ := h
   chan_step_tac
 
 theorem step_cFullRecv (s : State) (t : Tid) (first : _) (c : _) (h : Inv s) (hp : s.pc t = .cFullRecv first c) :
@@ -289,8 +304,9 @@ theorem step_cFullRecv (s : State) (t : Tid) (first : _) (c : _) (h : Inv s) (hp
   have a_wt := h.wt t
   have a_clF := h.clF t
   have a_cd := h.cd t
-  simp only [hp] at a_mutex1 a_mutex2 a_uniq a_past a_pre a_pd a_st a_gt a_wt a_clF a_cd
-  obtain ⟨h1, h2, h3, h4, h5, h6, h7, h8, h9, h10, h11, h12, h13⟩ := h
+  have a_frF := h.frF t
+  simp only [hp] at a_mutex1 a_mutex2 a_uniq a_past a_pre a_pd a_st a_gt a_wt a_clF a_cd a_frF
+  obtain ⟨h1, h2, h3, h4, h5, h6, h7, h8, h9, h10, h11, h12, h13, h14⟩ := h
   chan_step_tac
 
 theorem inv_step (s s' : State) (t : Tid) (h : Inv s) (hs : step s t = some s') : Inv s' := by
